@@ -101,6 +101,7 @@ func afPrelude() []afCase {
 		signIn("google", &afSign{URI: afCallbackURI, TsDelta: -290, State: "s"}, "sess", sess(nil), nil),
 		signIn("google", &afSign{URI: afCallbackURI, TsDelta: -310, State: "s"}, "sess", sess(nil), nil),
 		signIn("google", &afSign{URI: afCallbackURI, TsDelta: 100000, State: "s"}, "sess", sess(nil), nil),
+		signIn("google", &afSign{URI: afCallbackURI, TsDelta: -301, State: "s"}, "sess", sess(nil), func(s *afStep) { s.SleepMs = 1600 }), // stale by one second, process up for a while
 		signIn("google", &afSign{URI: afCallbackURI, TsLit: "notanumber", State: "s"}, "sess", sess(nil), nil),
 		signIn("google", good(), "sess", sess(nil), func(s *afStep) { s.Query = [][2]string{{"client_id", "someone-else"}} }),
 		signIn("google", good(), "sess", sess(nil), func(s *afStep) { s.Query = nil }),
@@ -199,6 +200,19 @@ func afPrelude() []afCase {
 		split(sgq(), nil, [][2]string{{"sig", "AAAA"}, {"ts", "1"}}),
 		split(sgf(), [][2]string{{"sig", "AAAA"}, {"ts", "1"}}, nil),
 	)
+	// the session's e-mail is text on every variant of the sign-out page, whatever the revocation's outcome
+	for _, rv := range []afIdP{{Kind: "ok"}, {Kind: "status", Status: 429}, {Kind: "status", Status: 503}, {Kind: "status", Status: 500}, {Kind: "transport"},
+		{Kind: "status", Status: 400, ErrDesc: "something else"}} {
+		for _, m := range []string{"GET", "POST"} {
+			sgx := sgq()
+			if m == "POST" {
+				sgx = sgf()
+			}
+			x := so(m, sgx, "sess", rv)
+			x.Sess = sess(func(s *afSess) { s.Email = "\"<img src=x onerror=alert(1)>\"@x.io" })
+			outs = append(outs, x)
+		}
+	}
 	okOut := afStep{Slug: "okta", Endpoint: "sign_out", Method: "POST", Sign: sgf(), Cookie: "sess", Sess: sess(nil), Revoke: afIdP{Kind: "status", Status: 400, ErrDesc: "The token is invalid or expired"}}
 	outs = append(outs, okOut)
 	// sign out for real, then reuse of the old authenticator cookie
@@ -232,6 +246,13 @@ func afPrelude() []afCase {
 		code := code
 		bc = append(bc, cred("redeem", "POST", nil, Q("client_id", afProxyID, "client_secret", afProxySecret), nil, func(s *afStep) { s.Code = code }))
 	}
+	// the same code presented twice, the session's lifetime ending in between: live → tokens, then expired → 401
+	okc := Q("client_id", afProxyID, "client_secret", afProxySecret)
+	bc = append(bc,
+		cred("redeem", "POST", nil, okc, nil, func(s *afStep) { s.Code = "short-lived" }),
+		cred("redeem", "POST", nil, okc, nil, func(s *afStep) { s.Code = "repeat" }),
+		cred("redeem", "POST", nil, okc, nil, func(s *afStep) { s.Code = "repeat"; s.SleepMs = 2300 }),
+		cred("redeem", "POST", nil, okc, nil, func(s *afStep) { s.Code = "repeat" }))
 	bc = append(bc,
 		cred("redeem", "POST", nil, Q("client_id", afProxyID), H("X-Client-Secret", afProxySecret), func(s *afStep) { s.Code = "genuine" }),
 		cred("redeem", "POST", Q("client_id", afProxyID), Q("client_secret", afProxySecret), nil, func(s *afStep) { s.Code = "genuine" }),
@@ -300,7 +321,7 @@ func init() {
 		hosts := []string{"app.x.io", "x.io", "evil.io", "x.io.evil.io", "notx.io", "a.apps.y.io", "apps.y.io", "APP.x.io", "app.x.io:443", "[::1%25.x.io]", "x.io.", "evil.io\\@app.x.io", "u:p@app.x.io", "app.x.io@evil.io"}
 		schemes := []string{"https://", "http://", "//", "", "javascript://", "HTTPS://"}
 		paths := []string{"/oauth2/callback", "/", "", "/?x=.x.io", "/#.x.io", "/%2e%2e"}
-		emails := []string{"ann@x.io", "Ann@X.IO", "eve@evil.io", "ann@x.io.evil.io", "", "x@notx.io"}
+		emails := []string{"ann@x.io", "Ann@X.IO", "eve@evil.io", "ann@x.io.evil.io", "", "x@notx.io", "\"<b>x</b><script>1</script>\"@x.io"}
 		var pool []afStep
 		for _, c := range pre {
 			pool = append(pool, c.Steps...)
@@ -315,6 +336,7 @@ func init() {
 				b, _ := json.Marshal(pool[rng.Intn(len(pool))])
 				var s afStep
 				json.Unmarshal(b, &s)
+				s.SleepMs = 0 // real-time waits only in the prelude
 				if s.Sign != nil && rng.Intn(3) == 0 {
 					s.Sign.URI = schemes[rng.Intn(len(schemes))] + hosts[rng.Intn(len(hosts))] + paths[rng.Intn(len(paths))]
 				}
